@@ -2,7 +2,13 @@
 
 package vrt
 
-import "runtime"
+import (
+	"os"
+	"runtime"
+	"unsafe"
+)
+
+var noPool = os.Getenv("VERIF_NOPOOL") != "" // debugging aid: one goroutine per thread, as in non-race builds
 
 // RaceBuild reports whether this binary carries the race detector.
 const RaceBuild = true
@@ -12,6 +18,26 @@ func raceDisable() { runtime.RaceDisable() }
 
 //go:norace
 func raceEnable() { runtime.RaceEnable() }
+
+// raceAcquire / raceRelease: explicit happens-before edges on a token address (the channel model).
+//
+//go:norace
+func raceAcquire(p unsafe.Pointer) {
+	if hbTrace && X != nil {
+		println("hb: thread", X.cur, "acquire", p)
+	}
+	runtime.RaceAcquire(p)
+}
+
+//go:norace
+func raceRelease(p unsafe.Pointer) {
+	if hbTrace && X != nil {
+		println("hb: thread", X.cur, "release", p)
+	}
+	runtime.RaceRelease(p)
+}
+
+var hbTrace = os.Getenv("VERIF_HB_TRACE") != "" // debugging aid
 
 // Goroutines are pooled in race builds: the race detector never gives back what it allocates per
 // goroutine created (about 300 bytes; measured 150 MB per 500 000 goroutines), and a thorough run creates
@@ -26,6 +52,10 @@ var (
 
 //go:norace
 func spawn(fn func()) {
+	if noPool {
+		go fn()
+		return
+	}
 	var c chan func()
 	if n := len(poolIdle); n > 0 {
 		c = poolIdle[n-1]
